@@ -594,6 +594,10 @@ def configs():
     C["licref-text-binary"] = (dict(lr_user, **{"LICENSES/LicenseRef-odd.txt": bytes(range(256)) * 4}), [], None)
     C["licref-text-empty"] = (dict(lr_user, **{"LICENSES/LicenseRef-odd.txt": b""}), [], None)
     C["license-text-latin1"] = ({"LICENSES/ISC.txt": "caf\xe9 ISC\n".encode("latin-1")}, [], None)
+    # very long lines in covered files: a licence tag whose identifier is longer than any file name may be
+    C["long-licenseref"] = ({"long.py": "# SPDX-FileCopyrightText: 2020 J\n# SPDX-License-Identifier: LicenseRef-" + "a" * 300 + "\n"}, [], None)
+    C["long-identifier"] = ({"long.py": "# SPDX-FileCopyrightText: 2020 J\n# SPDX-License-Identifier: " + "Abc-" * 200 + "1.0\n"}, [], None)
+    C["long-licenseref-in-toml"] = ({TOML_REL: CLI_TOML_OK.replace('"MIT"', '"LicenseRef-' + "b" * 300 + '"')}, [(TOML_REL, ok_doc)], None)
     # a Git repository (configurations whose name begins with "git-": `git init` after the tree is written) with files the
     # VCS ignores or does not know: whatever *bytes their names* are made of — the tool asks Git for the list of ignored
     # paths and never looks at these files otherwise, so no command may end differently because of them
